@@ -49,6 +49,7 @@ C_FORCE = 64.0  # float32 allowance (in eps32 * magnitude of the terms summed) f
 C_GRADNOISE = 8.0  # float32 gradient-evaluation floor multiplier (enters the gap squared)
 GATE_POS = 2e-5  # contact position / distance agreement required for the MuJoCo certificate
 GATE_FRAME = 2e-4
+SMOOTH_REL = 1e-4  # float32 evaluation allowance for qfrc_smooth / M qacc inside the MuJoCo certificate
 
 BASE = dict(
   nbody=(3, 7),
@@ -249,7 +250,15 @@ def mujoco_reference(mjm, st, seed):
     if mp.nefc != mj.nefc or mp.ncon != mj.ncon:
       return None, "ungated:structure_unstable_under_probe"
     noise = max(noise, (E.grad_cost(Pj, np.array(mp.qacc))[1] - cstar) / Pj["scale"])
-  return {"Pj": Pj, "cstar": cstar, "noise": max(noise, 0.0), "lawerr": lerr, "con": E.mj_contacts(mj)}, "ok"
+  # float32 evaluation error of the smooth inputs (qfrc_smooth, M qacc) is not an input perturbation, so the ulp probe
+  # cannot see it: allow 1e-4 of their largest magnitude (C02 judges those fields themselves) and convert it to a cost gap
+  H = E.grad_cost(Pj, Pj["qacc"], want_hess=True)[5]
+  eg = np.full(mjm.nv, SMOOTH_REL * (float(np.abs(Pj["qfrc_smooth"]).max()) + float((np.abs(Pj["M"]) @ np.abs(Pj["qacc"])).max())))
+  try:
+    smooth_floor = 0.5 * float(eg @ np.linalg.solve(H, eg)) / Pj["scale"]
+  except np.linalg.LinAlgError:
+    return None, "ungated:singular_hessian"
+  return {"Pj": Pj, "cstar": cstar, "noise": max(noise, 0.0), "lawerr": lerr, "con": E.mj_contacts(mj), "smooth_floor": smooth_floor}, "ok"
 
 
 def certificate_ii(rec, R, P, con, solver):
@@ -274,7 +283,7 @@ def certificate_ii(rec, R, P, con, solver):
   a32 = P["qacc"]
   cx = E.grad_cost(Pj, a32)[1]
   xgap = (cx - R["cstar"]) / Pj["scale"]
-  bound = K_TOL[solver] * P["tolerance"] + cmp.C_NOISE**2 * R["noise"] + 1e-12
+  bound = K_TOL[solver] * P["tolerance"] + cmp.C_NOISE**2 * R["noise"] + R["smooth_floor"] + 1e-12
   dq = float(np.abs(a32 - Pj["qacc"]).max()) / max(1.0, float(np.abs(Pj["qacc"]).max()))
   return "gated", xgap / bound, xgap, dq
 
